@@ -467,9 +467,9 @@ QUAT_INV = ["InO3", "RepOrthogonal", "RepParity", "RepHom", "RepInverse", "Compr
 PARTNERS = [np.array([[0, -1, 0], [1, 0, 0], [0, 0, 1.0]]), np.array([[0, 0, 1], [1, 0, 0], [0, 1, 0.0]]), -np.eye(3), np.diag([1.0, -1.0, -1.0])]
 
 
-def rational_rotations(rep, shells, norms, npart, nreplay, nf, rng, workers):
+def rational_rotations(rep, shells, norms, npart, nreplay, nf, rng, workers, sgns=(1, -1)):
     """exact non-crystallographic rotations (integer quaternions): TLC model + replay on the real OrbitalRotator"""
-    cfg = ("SPECIFICATION Spec\nCONSTANTS\n  QMAX = 2\n  NORMS = {%s}\n  NPART = %d\n  Variant = \"code\"\n" % (", ".join(str(n) for n in norms), npart) +
+    cfg = ("SPECIFICATION Spec\nCONSTANTS\n  QMAX = 2\n  NORMS = {%s}\n  NPART = %d\n  Variant = \"code\"\n  SGNS <- %s\n" % (", ".join(str(n) for n in norms), npart, "SgnsBoth" if len(sgns) == 2 else "SgnsImproper") +
            "".join(f"INVARIANT {i}\n" for i in QUAT_INV) + "CHECK_DEADLOCK FALSE\n")
     name = sc.uniq("c21_quat")
     st = ftable.enumerate_states("MC_OrbRepQuat.tla", cfg, name, workers=workers)
@@ -729,7 +729,7 @@ def _check(rep, tier):
     rep.sample({k: v for k, v in recs[0].items() if k in ("fn", "R", "p")})
 
     rational_rotations(rep, shells, norms=range(1, 17) if thorough else [5], npart=4 if thorough else 1, nreplay=200 if thorough else 16,
-                       nf=6 if thorough else 1, rng=rng, workers=workers)
+                       nf=6 if thorough else 1, rng=rng, workers=workers, sgns=(1, -1) if thorough else (-1,))
     random_rotations(rep, shells, npairs=40 if thorough else 6, nf=12 if thorough else 2, rng=rng)
     cache_tolerance(rep, shells, rng)
     return rep.finish()
